@@ -200,4 +200,17 @@ def treeIdentityOf (values : List Str) : List (Str × Str) :=
     grammar paths such as `data/grammar.lark`, rule and algorithm names) -/
 def Plain (s : Str) : Prop := ∀ c ∈ s, c ≠ '\'' ∧ c ≠ '\\' ∧ 0x20 ≤ c.toNat ∧ c.toNat ≤ 0x7e
 
+/-- `CachedProxy.gen_cache_path` (cache.py:108-121): `f'{cache_key}-{identifier(identity)}{extention}'` with
+    `identifier(identity) = md5(str(identity)).hexdigest()` (cache.py:41); `md5` is a parameter — it is not modelled -/
+def cacheFileName (md5 : Str → Str) (key ext : Str) (identity : List (Str × Str)) : Str :=
+  key ++ '-' :: (md5 (pyStrDict identity) ++ ext)
+
+/-- the only property of md5 the file-name statements need: no two *identity texts* of the tree cache (five plain
+    components under the generated keys) have the same digest -/
+def Md5CollisionFreeOnIdentities (md5 : Str → Str) : Prop :=
+  ∀ vs ws : List Str, vs.length = Generated.LarkCache.treeIdentity.length → ws.length = Generated.LarkCache.treeIdentity.length →
+    (∀ v ∈ vs, Plain v) → (∀ w ∈ ws, Plain w) →
+    md5 (pyStrDict (treeIdentityOf vs)) = md5 (pyStrDict (treeIdentityOf ws)) →
+    pyStrDict (treeIdentityOf vs) = pyStrDict (treeIdentityOf ws)
+
 end Tranp.Shape
